@@ -58,10 +58,17 @@ FUNCS = [
     ('ATAN2({X},{Y})', 2), ('BITAND({X},{Y})', 2), ('EVEN({X})', 1),
     ('TEXT({X},"0.0")', 1), ('TRUNC({X},{Y})', 2), ('CHOOSE({X},7,9)', 1),
     ('YEARFRAC({X},{Y})', 2),
+    # type-sensitive: TRUE and 1, FALSE and 0 are different elements
+    ('ISNUMBER({X})', 1), ('ISLOGICAL({X})', 1), ('ISTEXT({X})', 1),
+    ('ISNONTEXT({X})', 1), ('ISERROR({X})', 1), ('ISNA({X})', 1),
+    ('ISODD({X})', 1), ('ISEVEN({X})', 1), ('N({X})', 1),
+    ('IF(ISNUMBER({X}),{Y},"n")', 2),
 ]
 KINDS = ['same', 'scalar', 'row', 'col', 'first-scalar']
 VALUES = [0, 1, 2, 3, -1, 2.5, 10, -4, 7, 0.5, 'a', 'Bc', '12', '#DIV/0!',
-          '#N/A', 100, 4, 9]
+          '#N/A', 100, 4, 9, True, False, True, False, 1, 0, 1.0, '1']
+# python-equal but Excel-different neighbours (row-major and across a row end)
+ALIAS_RUN = [1, True, 0, False, 1.0, True, '1', 1, False, 0.0, 2, True, 1]
 
 
 def shape_of_second(kind, h, w):
@@ -273,7 +280,8 @@ def run_shard(shard, rec):
             [(1, 2, 1, 3), (2, 2, 3, 3), (2, 1, 3, 1), (2, 2, 2, 2),
              (1, 3, 1, 1), (3, 2, 2, 4)],
             [[1, 2, 3, 4, 5, 6, 7, 8, 9, 10, 11],
-             [2, 'ab', 0, '#N/A', 3, 1, 'a', 2.5, '#DIV/0!', 4, 1]]))
+             [2, 'ab', 0, '#N/A', 3, 1, 'a', 2.5, '#DIV/0!', 4, 1],
+             ALIAS_RUN]))
         for (template, nargs), k2, (h, w, th, tw), vals in \
                 grid[shard['part']::shard['parts']]:
             if nargs == 1 and k2 != 'same':
